@@ -278,7 +278,7 @@ func TestVerifC04Race(t *testing.T) {
 	part.Run = func(e explore.Env) *explore.Report {
 		rounds := 24
 		if e.Thorough() {
-			rounds = 400
+			rounds = 120
 		}
 		rep := &explore.Report{Level: "exploration", Supporting: true}
 		oc := map[string]bool{}
